@@ -44,6 +44,7 @@ type proxyNode struct {
 }
 
 type ccWorld struct {
+	everNS  []*server.Namespace // every namespace object any proxy of the run built
 	r       *simkit.Run
 	coord   *simcoord.Coordinator
 	proxies []*proxyNode
@@ -83,9 +84,15 @@ func nsConfig(name string, version int) *models.Namespace {
 
 func newCCWorld(r *simkit.Run, nProxies int) *ccWorld {
 	w := &ccWorld{r: r, coord: simcoord.New()}
+	server.VerifWheelBuckets = 8 // no client sessions in this world
 	w.coord.Log = r.Logf
 	verifhook.Hooks["models.NewClient"] = func(configType, addr, username, password, root string) (models.Client, error) {
 		return &simcoord.Client{C: w.coord, Root: root}, nil
+	}
+	verifhook.Hooks["server.NewNamespace"] = func(v interface{}) {
+		if n, ok := v.(*server.Namespace); ok && n != nil {
+			w.everNS = append(w.everNS, n)
+		}
 	}
 	verifhook.DialFn = simnet.New().Dial // backends do not exist: every dial is refused
 	w.cfg = &models.CCConfig{CoordinatorType: models.ConfigEtcd, CoordinatorAddr: "http://coordinator.sim:2379", CoordinatorRoot: "/gaea_cluster",
@@ -100,10 +107,21 @@ func newCCWorld(r *simkit.Run, nProxies int) *ccWorld {
 
 func (w *ccWorld) close() {
 	delete(verifhook.Hooks, "models.NewClient")
+	delete(verifhook.Hooks, "server.NewNamespace")
+	for _, ns := range w.everNS {
+		func() {
+			defer func() { recover() }()
+			ns.Close(false)
+		}()
+	}
 	requests.VerifSetTransport(http.DefaultTransport)
 	for _, p := range w.proxies {
 		w.stop(p)
 	}
+	// replaced and deleted namespaces are closed by the proxies 60 simulated seconds after the change: let those
+	// tasks (and the pool timers they stop) end inside the run, or they stay behind for the life of the worker
+	w.r.FreeRun()
+	simkit.Sleep(75 * time.Second)
 }
 
 // start boots a proxy: it loads every namespace from the coordinator, like a real proxy at start-up, and registers.
